@@ -10,6 +10,23 @@ import types
 
 from . import common
 
+LEAN_TARGETS = ['DawgieVerif.Model.FrameIO']
+
+MANIFEST = dict(
+    text='Lean theorems over an executable model of the shared frame-reassembly loop '
+         '(feed_append, any_chunking, frames_roundtrip, chunked_frames, recv1_agrees: for every byte '
+         'stream, every chunking, every message list, by induction, no size bound) and of the legacy '
+         'handshake; the model is tied to the three real dataReceived loops, message.send/receive and '
+         'TwistedWrapper.process by a correspondence run on every check, and the prefix width is '
+         'regenerated from the struct formats in the source.',
+    note='Trusted: Lean kernel; axioms propext/Classical.choice/Quot.sound only; tools/gen_c14.py; '
+         'harness fakes (transport, identity pickle shim, table-driven PGP fake). Assumed: Twisted delivers '
+         'nothing after loseConnection; PGP verify rejects the empty message. Real sockets and kernel '
+         'chunking are not exercised (the theorem proves independence from chunking).',
+    technique='Lean 4 proof by functional induction on the frame loop + differential correspondence',
+    design='7/C14',
+)
+
 TRUSTED = [
     'pickle.loads/dumps replaced by identity shims in the three channel modules (payload decoding is a parameter of the model)',
     'Twisted delivers no dataReceived after loseConnection (abstract.FileDescriptor.loseConnection stops reading)',
@@ -229,7 +246,7 @@ def run(ctx, res):
     c14_handshake.run(ctx, res, ch, r, lines, pending)
     # correspondence with the Lean model
     if ctx['lean']:
-        outs = common.driver(lines)
+        outs = common.driver(lines, 'C14')
         for (tag, chunks, impl), o in zip(pending, outs):
             if tag == 'hs':
                 c14_handshake.compare(res, chunks, impl, o)
